@@ -224,7 +224,13 @@ func c11ConcurrentScenarios(tier string) []*Scenario {
 					}
 				}
 				m := env.Caches[0].M
-				for k, vs := range want {
+				var wantKeys []string
+				for k := range want {
+					wantKeys = append(wantKeys, k)
+				}
+				sort.Strings(wantKeys)
+				for _, k := range wantKeys {
+					vs := want[k]
 					v, ok := m[k]
 					found := false
 					for _, w := range vs {
@@ -234,7 +240,12 @@ func c11ConcurrentScenarios(tier string) []*Scenario {
 						return fmt.Sprintf("cache content %v: key %q should hold one of %v", sortedMap(m), k, vs)
 					}
 				}
+				var gotKeys []string
 				for k := range m {
+					gotKeys = append(gotKeys, k)
+				}
+				sort.Strings(gotKeys)
+				for _, k := range gotKeys {
 					if _, ok := want[k]; !ok {
 						return fmt.Sprintf("cache content %v: nothing should be stored under %q", sortedMap(m), k)
 					}
